@@ -654,6 +654,15 @@ func (u *Unit) addressOf(st *State, x *ast.UnaryExpr) Val {
 		st.ghost["cell:"+objKey(obj)] = Val{T: p.T, So: "Int"}
 		return p
 	}
+	if sel, ok := inner.(*ast.SelectorExpr); ok {
+		// &x.f : an opaque pointer. Writes through it are only modelled by heap havoc of
+		// contract-less callees; listed as an abstraction.
+		u.eval(st, sel.X)
+		u.noteAbstract(x.Pos(), "address of a field taken (&"+exprString(sel)+"): modelled as an opaque pointer")
+		p := u.fresh("fieldptr", "Int")
+		st.assume(app(">", p, "0"))
+		return Val{T: p, Ty: rt, So: "Int"}
+	}
 	u.unsupported(x.Pos(), "address-of %T", inner)
 	return Val{}
 }
@@ -1064,7 +1073,9 @@ func (u *Unit) typeAssertVal(st *State, v Val, t types.Type, commaOk bool, pos t
 		ok := u.uninterp("implements_"+fmt.Sprint(u.sc.tid(t)), []string{"Int"}, "Bool", app("dyntype", v.T))
 		okT := sAnd(sNot(sEq(v.T, "0")), ok)
 		if !commaOk {
-			u.oblige("nopanic", "assert."+u.safeLabel("assert"), pos, st, okT, "type assertion holds")
+			if u.contract == nil || !u.contract.MayPanic {
+				u.oblige("nopanic", "assert."+u.safeLabel("assert"), pos, st, okT, "type assertion holds")
+			}
 			st.assume(okT)
 		}
 		return Val{T: sIte(okT, v.T, "0"), Ty: t, So: "Int"}, okT
